@@ -122,7 +122,7 @@ func c12PartA(r *rand.Rand, tier string, w *shardWriter, meta *Meta, id *int) {
 			meta.Samples = append(meta.Samples, c)
 		}
 		meta.Evaluations++
-		meta.Distribution[fmt.Sprintf("assign:number=%s", bucket(n))]++
+		meta.Distribution[fmt.Sprintf("assign:number=%s", c12Bucket(n))]++
 		asig[fmt.Sprintf("%d|%d|%d|%d", l/80, mn, cpu, run)] = true
 		*id++
 	}
@@ -198,7 +198,7 @@ func c12PartA(r *rand.Rand, tier string, w *shardWriter, meta *Meta, id *int) {
 	}
 }
 
-func bucket(n int) string {
+func c12Bucket(n int) string {
 	switch {
 	case n < 1:
 		return "<1"
